@@ -54,6 +54,43 @@ def topo(dur: int = 0, acl: Optional[Dict] = None, bw: Optional[float] = None, i
     return scenarios.base_cfg(nodes, links)
 
 
+def topo_masks(dur: int = 0, **_kw) -> Dict[str, Any]:
+    """Layout 2 of MC_ArpIcmp: mixed subnet masks on one segment.  p (10.0.1.10/16) -- r port 1 (10.0.1.1/24), r port 2
+    (10.0.2.1/24) -- q (10.0.2.10/24): p regards the far router port and q as on-link."""
+    d = {"start_up_duration": dur, "shut_down_duration": dur}
+    nodes = [
+        scenarios.host("p", "10.0.1.10", "computer", gw="10.0.1.1", mask="255.255.0.0", **d),
+        scenarios.host("q", "10.0.2.10", "server", gw="10.0.2.1", **d),
+        {"hostname": "r", "type": "router", "num_ports": 3,
+         "ports": {1: {"ip_address": "10.0.1.1", "subnet_mask": "255.255.255.0"}, 2: {"ip_address": "10.0.2.1", "subnet_mask": "255.255.255.0"}},
+         "acl": {1: {"action": "PERMIT"}}, **d},
+    ]
+    return scenarios.base_cfg(nodes, [scenarios.link("p", 1, "r", 1), scenarios.link("q", 1, "r", 2)])
+
+
+def topo_two_ports(dur: int = 0, **_kw) -> Dict[str, Any]:
+    """Layout 3 of MC_ArpIcmp: host p and two ports of router r in one broadcast domain (one switch, one /16)."""
+    d = {"start_up_duration": dur, "shut_down_duration": dur}
+    nodes = [
+        scenarios.host("p", "10.1.0.10", "computer", mask="255.255.0.0", **d),
+        {"hostname": "r", "type": "router", "num_ports": 3,
+         "ports": {1: {"ip_address": "10.1.1.1", "subnet_mask": "255.255.0.0"}, 2: {"ip_address": "10.1.2.1", "subnet_mask": "255.255.0.0"}},
+         "acl": {1: {"action": "PERMIT"}}, **d},
+        {"hostname": "sw", "type": "switch", "num_ports": 4},
+    ]
+    return scenarios.base_cfg(nodes, [scenarios.link("p", 1, "sw", 1), scenarios.link("r", 1, "sw", 2), scenarios.link("r", 2, "sw", 3)])
+
+
+# model numbering -> real names / addresses, per layout of MC_ArpIcmp
+LAYOUTS = {
+    1: {"topo": None, "node": MC_NODE, "ifc": MC_IF, "ip": MC_IP, "cfg": "MC_ArpIcmpDeep.cfg"},
+    2: {"topo": topo_masks, "node": {1: "p", 2: "r", 3: "q"}, "ifc": {1: ("p", 1), 2: ("r", 1), 3: ("r", 2), 4: ("q", 1)},
+        "ip": {1: "10.0.1.10", 2: "10.0.1.1", 3: "10.0.2.1", 4: "10.0.2.10", 5: "10.0.3.9"}, "cfg": "MC_ArpIcmpMasks.cfg"},
+    3: {"topo": topo_two_ports, "node": {1: "p", 2: "r"}, "ifc": {1: ("p", 1), 2: ("r", 1), 3: ("r", 2)},
+        "ip": {1: "10.1.0.10", 2: "10.1.1.1", 3: "10.1.2.1", 4: "10.1.9.9"}, "cfg": "MC_ArpIcmpTwoPorts.cfg"},
+}
+
+
 class Scene:
     """Numbering of one real network: tracked nodes (hosts and plain routers), their connected layer-3 interfaces,
     segments (broadcast domains through links and switches), addresses, MACs, ICMP identifiers."""
@@ -154,18 +191,14 @@ class Scene:
 
     def cfg(self, initial: Dict[str, Any]) -> Dict[str, Any]:
         """Configuration record; called when the trace is complete (every address that occurred is numbered)."""
-        netof = []
-        for s, _ix in sorted(self.ips.items(), key=lambda kv: kv[1]):
-            a = ipaddress.ip_address(s)
-            cands = [(net.prefixlen, k + 1) for k, net in enumerate(self.nets) if a in net]
-            netof.append(max(cands)[1] if cands else 0)
-        ifs = [{"node": self.node_ix[id(ni._connected_node)], "ip": self.ip(ni.ip_address),
-                "net": self.nets.index(ni.ip_network) + 1, "mac": self.mac(ni.mac_address), "seg": self.seg[id(ni)]}
-               for ni in self.ifs]
+        order = [ipaddress.ip_address(a) for a, _ix in sorted(self.ips.items(), key=lambda kv: kv[1])]
+        sub = [[k + 1 for k, a in enumerate(order) if a in ni.ip_network] for ni in self.ifs]
+        ifs = [{"node": self.node_ix[id(ni._connected_node)], "ip": self.ip(ni.ip_address), "mac": self.mac(ni.mac_address),
+                "seg": self.seg[id(ni)]} for ni in self.ifs]
         kind = ["router" if self.is_router[k + 1] else "host" for k in range(len(self.nodes))]
         gw = [self.ip(nd.config.default_gateway) if getattr(nd.config, "default_gateway", None) and not self.is_router[k + 1] else 0
               for k, nd in enumerate(self.nodes)]
-        return {"ifs": ifs, "kind": kind, "gw": gw, "netof": netof, "skip": [], **initial}
+        return {"ifs": ifs, "kind": kind, "gw": gw, "sub": sub, "skip": [], **initial}
 
     def names(self) -> Dict[str, Any]:
         return {"nodes": [nd.config.hostname for nd in self.nodes],
@@ -318,12 +351,17 @@ class Recorder:
         if ctx["done"] or ctx["node"] is not arp.software_manager.node:
             return
         ctx["done"] = True
-        self._rx_event("Rx", ctx)
+        if self._frame(ctx["frame"])["k"] == "arep":
+            ctx["defer"] = True  # ARP._process_arp_reply may add the packet's sender as well: read the cache when the handler is through
+        else:
+            self._rx_event("Rx", ctx)
 
     def _a_receive(self, nd, tok, ret, exc, *a, **k):
         if not tok or self.scene is None:
             return
         ctx = self.rx_stack.pop()
+        if ctx.get("defer"):
+            self._rx_event("Rx", ctx)
         if not ctx["done"] and self.scene.is_on(nd) and self.scene.is_router.get(self.scene.node_ix[id(nd)]):
             self._rx_event("RxDeny", ctx)  # a router that is ON took the frame and learnt nothing: its ACL refused it
 
@@ -422,13 +460,21 @@ SCRIPTED = [
     # one is learnt (the documented rule)
     {"acl": None, "dur": 0, "intruder": True, "steps": [["ping", 1, 2, 1], ["spoof", 2, 1], ["ping", 1, 2, 2], ["spoof", 4, 1], ["ping", 1, 4, 1],
                                                         ["clear", 1], ["spoof", 2, 1], ["ping", 1, 2, 1]]},
+    # mixed masks: p asks on its own segment for the far router port / for q (nobody there owns them: no reply), the
+    # ordinary exchanges around it
+    {"acl": None, "dur": 0, "layout": 2, "steps": [["ping", 1, 3, 1], ["ping", 1, 2, 2], ["lookup", 1, 3], ["ping", 1, 4, 1], ["ping", 3, 1, 1],
+                                                   ["ping", 2, 1, 1], ["ping", 1, 5, 1], ["clear", 1], ["ping", 1, 3, 2], ["ping", 3, 2, 1]]},
+    # two ports of one router in one broadcast domain: a request for the address of port 2 is heard by port 1 too
+    {"acl": None, "dur": 0, "layout": 3, "steps": [["ping", 1, 3, 1], ["ping", 1, 2, 1], ["ping", 2, 1, 1], ["clear", 1], ["lookup", 1, 3],
+                                                   ["lookup", 1, 2], ["ping", 1, 3, 2], ["ifdown", 2], ["clear", 1], ["ping", 1, 3, 1], ["ifup", 2],
+                                                   ["ping", 1, 4, 1], ["clear", 2], ["ping", 2, 1, 2]]},
     {"acl": None, "dur": 2, "steps": [["ping", 1, 5, 1], ["off", 3], ["ping", 1, 5, 1], ["ping", 1, 2, 1], ["on", 3], ["ping", 1, 5, 2],
                                       ["off", 1], ["ping", 1, 2, 1], ["on", 1], ["ifdown", 4], ["ping", 1, 5, 1], ["ping", 1, 6, 1]]},
 ]
 
 
 def replay(rec: Recorder, steps: List[List[Any]], dur: int, acl, rng: random.Random, meta: Dict[str, Any],
-           bw: Optional[float] = None, intruder: bool = False) -> Dict[str, Any]:
+           bw: Optional[float] = None, intruder: bool = False, layout: int = 1) -> Dict[str, Any]:
     from ipaddress import IPv4Address
 
     from primaite.simulator.network.transmission.data_link_layer import EthernetHeader, Frame
@@ -436,7 +482,9 @@ def replay(rec: Recorder, steps: List[List[Any]], dur: int, acl, rng: random.Ran
     from primaite.simulator.network.transmission.transport_layer import UDPHeader
     from primaite.utils.validation.port import PORT_LOOKUP
 
-    game = scenarios.build(topo(dur, acl, bw, intruder))
+    lay = LAYOUTS[layout]
+    MC_NODE, MC_IF, MC_IP = lay["node"], lay["ifc"], lay["ip"]  # noqa: N806  (this layout's numbering)
+    game = scenarios.build(topo(dur, acl, bw, intruder) if layout == 1 else lay["topo"](dur))
     net = game.simulation.network
     node = {k: net.get_node_by_hostname(h) for k, h in MC_NODE.items()}
     for nd in node.values():
@@ -475,7 +523,7 @@ def replay(rec: Recorder, steps: List[List[Any]], dur: int, acl, rng: random.Ran
             rec.raised.append(repr(e))
         rec.quiet()
         applied.append(st)
-    return rec.stop(dict(meta, dur=dur, acl="deny icmp a->b" if acl else "permit"), applied)
+    return rec.stop(dict(meta, dur=dur, acl="deny icmp a->b" if acl else "permit", layout=layout), applied)
 
 
 def scenario_run(rec: Recorder, name: str, steps: int, seed: int, chk: common.Check) -> Dict[str, Any]:
@@ -548,13 +596,18 @@ def main(tier: str, seed: int) -> int:
     # (a) the model
     from concurrent.futures import ThreadPoolExecutor
 
-    negs = (("MC_ArpIcmpBadId.cfg", "EchoReplySameIdentifier"), ("MC_ArpIcmpAsCodedGw.cfg", "UnicastToResolvedMac"))
+    negs = (("MC_ArpIcmpBadId.cfg", "EchoReplySameIdentifier"), ("MC_ArpIcmpAsCodedGw.cfg", "UnicastToResolvedMac"),
+            ("MC_ArpIcmpAnyPort.cfg", "ArpReplyOnlyByOwner"))
+    extra_layouts = (("MC_ArpIcmpMasks.cfg", 2), ("MC_ArpIcmpTwoPorts.cfg", 3))
     nbeh = 60 if quick else 800
-    with ThreadPoolExecutor(max_workers=4) as ex:  # the four TLC runs side by side
+    with ThreadPoolExecutor(max_workers=10) as ex:  # the TLC runs side by side
         f_mc = ex.submit(tlc.mc, "MC_ArpIcmp", cfg="MC_ArpIcmp.cfg" if quick else "MC_ArpIcmpDeep.cfg", timeout=1500)
         f_neg = [ex.submit(tlc.mc, "MC_ArpIcmp", cfg=neg, coverage=False, workers=4) for neg, _ in negs]
+        f_lay = [ex.submit(tlc.mc, "MC_ArpIcmp", cfg=c, workers=6) for c, _ in extra_layouts]
         f_sim = ex.submit(tlc.simulate, "MC_ArpIcmp", cfg="MC_ArpIcmpDeep.cfg", num=nbeh, depth=90, seed=seed)
+        f_sim2 = [ex.submit(tlc.simulate, "MC_ArpIcmp", cfg=c, num=max(12, nbeh // 5), depth=90, seed=seed) for c, _ in extra_layouts]
         r, rneg, (behs, info) = f_mc.result(), [f.result() for f in f_neg], f_sim.result()
+        rlay, behs2 = [f.result() for f in f_lay], [f.result()[0] for f in f_sim2]
     phase("tlc_model_runs")
     if not r["ok"]:
         chk.violation({"module": "MC_ArpIcmp", "clause": str(r["violation"])}, {"tlc": r["output_tail"]})
@@ -565,6 +618,10 @@ def main(tier: str, seed: int) -> int:
     if idle:
         raise tlc.TLCError(f"vacuous model MC_ArpIcmp: actions never taken: {idle}")
     chk.add_mc("MC_ArpIcmp(a,c--sw--r--b; %s stimuli; pings<=2)" % ("2" if quick else "3"), r)
+    for (c, lay), rl in zip(extra_layouts, rlay):
+        if not rl["ok"]:
+            chk.violation({"module": "MC_ArpIcmp", "cfg": c, "clause": str(rl["violation"])}, {"tlc": rl["output_tail"]})
+        chk.add_mc(f"MC_ArpIcmp(layout {lay}: {c}; 2 stimuli)", rl)
     for (neg, inv), rn in zip(negs, rneg):
         if rn["ok"] or rn["violation"] != ("invariant", inv):
             raise tlc.TLCError(f"negative configuration {neg}: TLC did not refute {inv} ({rn['violation']})")
@@ -577,7 +634,7 @@ def main(tier: str, seed: int) -> int:
     traces: List[Dict[str, Any]] = []
     for k, sc in enumerate(SCRIPTED):
         traces.append(replay(rec, sc["steps"], sc["dur"], sc["acl"], rng, {"kind": "scripted", "index": k},
-                             bw=sc.get("bw"), intruder=sc.get("intruder", False)))
+                             bw=sc.get("bw"), intruder=sc.get("intruder", False), layout=sc.get("layout", 1)))
     for k, beh in enumerate(behs):
         steps = stimuli_of(beh)
         if not steps:
@@ -587,6 +644,12 @@ def main(tier: str, seed: int) -> int:
         traces.append(replay(rec, steps, dur, acl, rng, {"kind": "tlc-behaviour", "index": k}))
         chk.add_case(steps)
     phase("boot_and_replay")
+    for (c, lay), bb in zip(extra_layouts, behs2):
+        for k, beh in enumerate(bb):
+            steps = stimuli_of(beh)
+            if steps:
+                traces.append(replay(rec, steps, 0, None, rng, {"kind": "tlc-behaviour", "index": k}, layout=lay))
+                chk.add_case([lay] + steps)
     # (e) scenario scale
     shipped = [("data_manipulation.yaml", 24)] if quick else [("data_manipulation.yaml", 150), ("basic_lan_network_example.yaml", 40), ("data_manipulation.yaml", 150),
                                                             ("data_manipulation.yaml", 120)]
